@@ -99,12 +99,13 @@ static void imm_tok(struct instr *instr_buffer, char *imme) {
   instr_buffer->imm = true;
   int base = RADIX_10;
   imme = strtok_r(imme, " ", &saved_saved);
-  if (imme[1] == 'x' || imme[2] == 'x') {
+  bool is_hex = imme[1] == 'x' || imme[2] == 'x';
+  if (is_hex)
     base = RADIX_16;
-    if ((instr_buffer->assembly_opt & SMART_MOV_IMM) &&
-        imme_str_len < STR_HEX_64)
-      instr_buffer->assembly_opt |= NASM_MOV_IMM;
-  }
+  // smart mode: only a hex literal padded to all 16 digits keeps 64 bits
+  if ((instr_buffer->assembly_opt & SMART_MOV_IMM) &&
+      !(is_hex && imme_str_len >= STR_HEX_64))
+    instr_buffer->assembly_opt |= NASM_MOV_IMM;
   // convert string to unsigned long for immediate representation
   instr_buffer->cons = strtoul(imme, NULL, base);
 }
